@@ -309,9 +309,40 @@ func ruleErr4(c *Ctx) {
 					if _, isRet := u.(*ssa.Return); isRet {
 						continue
 					}
-					if !e19ErrNilAt(errV, idxV, u) {
-						bad = fmt.Sprintf("the index is used at %s where the lookup's error is not known to be nil", c.Pos(u))
+					if e19ErrNilAt(errV, idxV, u) || core.ErrKnownNilAt(errV, u) {
+						continue
 					}
+					// assignment to a local variable (a captured one lives in a cell): not a use
+					// itself — every read of the variable, and the creation of every closure
+					// that captures it, must lie where the error is known nil
+					if st, isSt := u.(*ssa.Store); isSt && st.Val == idxV {
+						if cell, isCell := st.Addr.(*ssa.Alloc); isCell {
+							okCell := true
+							for _, r := range *cell.Referrers() {
+								switch x := r.(type) {
+								case *ssa.Store, *ssa.DebugRef:
+								case *ssa.UnOp:
+									if len(e19NonDebugRefs(x)) > 0 && !core.ErrKnownNilAt(errV, x) {
+										okCell = false
+										bad = fmt.Sprintf("the variable holding the index is read at %s where the lookup's error is not known to be nil", c.Pos(x))
+									}
+								case *ssa.MakeClosure:
+									if !core.ErrKnownNilAt(errV, x) {
+										okCell = false
+										bad = fmt.Sprintf("a closure capturing the index is created at %s where the lookup's error is not known to be nil", c.Pos(x))
+									}
+								default:
+									okCell = false
+									bad = fmt.Sprintf("the address of the variable holding the index escapes at %s", c.Pos(r))
+								}
+							}
+							if okCell {
+								continue
+							}
+							break
+						}
+					}
+					bad = fmt.Sprintf("the index is used at %s where the lookup's error is not known to be nil", c.Pos(u))
 				}
 				if bad != "" {
 					c.Bad(key, c.Pos(call), bad+": on failure the index is -1")
